@@ -2,6 +2,7 @@ package main
 
 import (
 	"bytes"
+	"encoding/binary"
 	"fmt"
 	"os"
 	"os/exec"
@@ -67,6 +68,7 @@ type Recording struct {
 	Writes  map[int]*winfo
 	Order   []int // write ids in S order
 	MarkPos map[string][]int
+	TGOf    map[int64]int64 // payload id -> id of the logged transaction that carries it (whole recording)
 }
 
 type winfo struct {
@@ -115,6 +117,24 @@ func record(h *hist.History, dir string) (*Recording, error) {
 		for _, s := range th {
 			if s.Op == "write" {
 				rec.Writes[s.ID] = &winfo{ID: s.ID, Step: s, S: -1, A: -1}
+			}
+		}
+	}
+	rec.TGOf = map[int64]int64{}
+	last8 := map[string]int64{}
+	for _, e := range lg.Effects {
+		if e.Kind == sp.Write && strings.Contains(e.Path, ".walfile") {
+			if len(e.Data) == 8 {
+				last8[e.Path] = int64(binary.LittleEndian.Uint64(e.Data))
+			} else if int64(len(e.Data)) == last8[e.Path] && len(e.Data) >= 16 {
+				if tgid, cmds, err := parseTGBody(e.Data); err == nil {
+					for _, c := range cmds {
+						for _, v := range c.Vs {
+							rec.TGOf[v] = tgid
+						}
+					}
+				}
+				last8[e.Path] = -1
 			}
 		}
 	}
